@@ -745,7 +745,17 @@ impl PartitionedFileGroup {
             "No files would be left after deduplicating"
         );
         let mut commands = Vec::new();
-        let retained_file = Arc::new(self.to_keep.swap_remove(0));
+        let mut retained_file = self.to_keep.swap_remove(0);
+        if *strategy == DedupeOp::HardLink {
+            // A hard link to a symbolic link duplicates the link, not the file, and a relative
+            // link would dangle in another directory. Link to the file it points to instead.
+            let path_buf = retained_file.path.to_path_buf();
+            let is_symlink = fs::symlink_metadata(&path_buf).map(|m| m.file_type().is_symlink());
+            if let (Ok(true), Ok(resolved)) = (is_symlink, fs::canonicalize(&path_buf)) {
+                retained_file.path = Path::from(resolved);
+            }
+        }
+        let retained_file = Arc::new(retained_file);
         for dropped_file in self.to_drop {
             match strategy {
                 DedupeOp::SymbolicLink => commands.push(FsCommand::SoftLink {
